@@ -1,9 +1,86 @@
-/- Line-protocol driver stub: answers every request line with "unimplemented". -/
-partial def loop (h : IO.FS.Stream) (out : IO.FS.Stream) : IO Unit := do
-  let line ← h.getLine
-  if line.isEmpty then return ()
-  out.putStrLn "unimplemented"
-  out.flush
-  loop h out
+/-
+  Line-protocol driver of the transposition-table model (C15).  One request line → one answer line.
 
-def main : IO Unit := do loop (← IO.getStdin) (← IO.getStdout)
+    new <size>                               → ok <buckets> | panic          (New / Resize+Clear)
+    clr                                      → ok
+    ins <hash> <gen> <d> <ply> <mv> <val> <typ>  → ok
+    get <hash> <ply>                         → miss | hit <depth> <type> <value(ply)> <move>
+    dump <ix>                                → <pKeys> then 4 × <move> <value> <packed> <gen> | panic
+    m64 <w> <key>                            → -1 | <lane>
+    bix <hash> <n>                           → <bucket index>
+    qual <curr> <g> <d>                      → <quality>
+    sync                                     → ok   (and flushes the output)
+
+  All numbers are decimal.  Output is flushed on `sync`, `new` and on any malformed line.
+-/
+import ChessVerif.Model.Transp
+
+open ChessVerif ChessVerif.Model.Transp
+
+def natArg (s : String) : Option Nat := s.toNat?
+def intArg (s : String) : Option Int := s.toInt?
+
+def showEntry (e : Entry) : String :=
+  s!"{e.move.toNat} {e.value} {e.packed.toNat} {e.gen.toNat}"
+
+def answer (t : Table) (ws : List String) : Option (Table × String) :=
+  match ws with
+  | ["new", size] => do
+    let size ← natArg size
+    if validSize size then
+      let t' := Table.new size
+      pure (t', s!"ok {t'.size}")
+    else pure (t, "panic")
+  | ["clr"] => pure (t.clear, "ok")
+  | ["ins", hash, gen, d, ply, mv, val, typ] => do
+    let hash ← natArg hash; let gen ← natArg gen; let d ← intArg d; let ply ← intArg ply
+    let mv ← natArg mv; let val ← intArg val; let typ ← natArg typ
+    if t.size = 0 then pure (t, "panic") else
+    pure (t.insert (BitVec.ofNat 64 hash) (BitVec.ofNat 8 gen) d ply (BitVec.ofNat 16 mv) val
+      (BitVec.ofNat 8 typ), "ok")
+  | ["get", hash, ply] => do
+    let hash ← natArg hash; let ply ← intArg ply
+    if t.size = 0 then pure (t, "panic") else
+    match t.lookUp (BitVec.ofNat 64 hash) with
+    | none => pure (t, "miss")
+    | some e => pure (t, s!"hit {e.depth} {e.typ.toNat} {e.valueAt ply} {e.move.toNat}")
+  | ["dump", ix] => do
+    let ix ← natArg ix
+    match t[ix]? with
+    | none => pure (t, "panic")
+    | some b =>
+      pure (t, s!"{b.pKeys.toNat} {showEntry b.e0} {showEntry b.e1} {showEntry b.e2} {showEntry b.e3}")
+  | ["m64", w, key] => do
+    let w ← natArg w; let key ← natArg key
+    match match64 (BitVec.ofNat 64 w) (BitVec.ofNat 16 key) with
+    | none => pure (t, "-1")
+    | some i => pure (t, toString i)
+  | ["bix", hash, n] => do
+    let hash ← natArg hash; let n ← natArg n
+    pure (t, toString (bucketIx (BitVec.ofNat 64 hash) n))
+  | ["qual", curr, g, d] => do
+    let curr ← natArg curr; let g ← natArg g; let d ← intArg d
+    pure (t, toString (quality (BitVec.ofNat 8 curr) (BitVec.ofNat 8 g) d))
+  | ["sync"] => pure (t, "ok")
+  | _ => none
+
+partial def loop (h : IO.FS.Stream) (out : IO.FS.Stream) (t : Table) : IO Unit := do
+  let line ← h.getLine
+  if line.isEmpty then
+    out.flush
+    return ()
+  let ws := (line.trimAscii.toString.splitOn " ").filter (· ≠ "")
+  match answer t ws with
+  | some (t', a) =>
+    out.putStrLn a
+    match ws with
+    | "sync" :: _ => out.flush
+    | "new" :: _ => out.flush
+    | _ => pure ()
+    loop h out t'
+  | none =>
+    out.putStrLn "err"
+    out.flush
+    loop h out t
+
+def main : IO Unit := do loop (← IO.getStdin) (← IO.getStdout) (Table.new 32)
